@@ -1,3 +1,95 @@
-"""Leg T for the Chain properties (placeholder until the driver exists)."""
+"""Leg T for the Chain properties: randomised histories on real nodes (harness/chainx TestDriver),
+every recorded event validated by TLC against ChainTrace.tla (all Chain invariants evaluated in
+every state of every recorded execution)."""
+import os, json, time, concurrent.futures as cf
+import vlib
+from vlib import log
+
+MODES = {"C01": "core", "C02": "ledger", "C03": "durable", "C04": "subs", "C19": "prune"}
+SIZES = {  # (histories, min blocks, max blocks)
+    "quick": {"core": (48, 20, 45), "ledger": (32, 20, 40), "durable": (32, 15, 35), "subs": (48, 20, 45), "prune": (48, 20, 40)},
+    "thorough": {"core": (600, 30, 120), "ledger": (300, 30, 90), "durable": (300, 20, 70), "subs": (600, 30, 120), "prune": (600, 30, 100)},
+}
+
+
+def split_traces(path):
+    cur = []; start = 0
+    with open(path) as f:
+        for i, line in enumerate(f):
+            if line.startswith('{"op":"Reset"') and cur:
+                yield start, cur
+                cur = []; start = i
+            cur.append(line)
+    if cur:
+        yield start, cur
+
+
+def validate_shard(wd, prop, i, verdict, cfg="ChainTrace.cfg"):
+    path = os.path.join(wd, "chaintrace-%d.ndjson" % i)
+    trees = os.path.join(wd, "chaintrees-%d.json" % i)
+    events = vlib.count_lines(path)
+    if events == 0:
+        return 0, 0, 0
+    rejected = 0; states = 0
+    for it in range(8):
+        ok, r, consumed = vlib.validate_trace(wd, "ChainTrace", cfg, path, timeout=1800, tag="ct%d_%d" % (i, it), extra_env={"TREES": trees})
+        states += r.distinct
+        if ok:
+            break
+        if consumed is None:
+            raise vlib.Infra("chain trace validation broke: %s\n%s" % (r.error, r.out[-3000:]))
+        traces = list(split_traces(path))
+        bad = None
+        for start, lines in traces:
+            if start <= consumed < start + len(lines) or (consumed == start + len(lines) and r.violated):
+                bad = (start, lines)
+        if bad is None:
+            # an invariant failed in the last state of the file
+            bad = traces[-1]
+        start, lines = bad
+        k = min(consumed - start, len(lines) - 1)
+        ev = json.loads(lines[k])
+        prev = json.loads(lines[max(k - 1, 0)])
+        rejected += 1
+        what = r.violated or "no Chain action explains the event"
+        sig = "trace:%s:%s:%s" % (prop, ev.get("op"), (r.violated or "unexplained").split()[0])
+        slim = lambda e: {k2: v for k2, v in e.items() if k2 in ("op", "batch", "b", "h", "ret", "mem", "best", "s", "from", "max", "rus", "aus", "err", "shadowOk", "stateOk", "detail")}
+        verdict.add({"sig": sig,
+                     "desc": "TLC rejects a recorded execution at event %d (%s) after %s: %s" % (k, json.dumps(slim(ev)), json.dumps(slim(prev)), what),
+                     "replay": {"kind": "trace", "events": [slim(json.loads(x)) for x in lines[:k + 1]][-40:], "tlc": r.out[-1500:]}})
+        with open(path, "w") as f:
+            for s2, l2 in traces:
+                if s2 != start:
+                    f.writelines(l2)
+        if vlib.count_lines(path) == 0:
+            break
+    return events, rejected, states
+
+
 def leg_t(prop):
-    return None
+    mode = MODES[prop]
+
+    def run(wd, binary, tier, verdict):
+        nh, lo, hi = SIZES[tier][mode]
+        shards = 12
+        res = vlib.go_run(binary, "TestDriver", wd, env={"VERIF_MODE": mode, "VERIF_HISTORIES": nh, "VERIF_SHARDS": shards,
+                                                         "VERIF_MIN_BLOCKS": lo, "VERIF_MAX_BLOCKS": hi}, timeout=3000, tag="driver")
+        verdict.add_all(res["mismatches"])
+        t0 = time.time()
+        tot = rej = st = 0
+        with cf.ThreadPoolExecutor(max_workers=12) as ex:
+            futs = [ex.submit(validate_shard, wd, prop, i, verdict) for i in range(shards)]
+            for fu in futs:
+                e, r_, s = fu.result()
+                tot += e; rej += r_; st += s
+        log("  T: mode %s: %d histories / %d events on real nodes (%d driver-level findings); TLC validated in %.1fs, %d traces rejected; counts %s" %
+            (mode, res["traces"], tot, len(res["mismatches"]), time.time() - t0, rej, json.dumps(res.get("counts", {}))))
+        for i in range(shards):
+            for f in ("chaintrace-%d.ndjson" % i, "chaintrees-%d.json" % i):
+                try:
+                    os.remove(os.path.join(wd, f))
+                except OSError:
+                    pass
+        return dict(traces=res["traces"] - rej, events=tot, rejected=rej, trace_states=st, mode=mode, samples=res["samples"],
+                    driver_counts=res.get("counts", {}), blocks_per_history=[lo, hi])
+    return run
